@@ -183,6 +183,7 @@ func runC09(c *eng.Ctx) {
 	runC09SharedCode(c, next)
 	runC09FaultedConstruction(c, next)
 	runC09Raw(c, next)
+	runC09ClosePanic(c, next)
 }
 
 func runC09Stress(c *eng.Ctx, next func() (int, bool)) {
